@@ -178,6 +178,14 @@ Proof.
   intros [a00 [a01 [a02 [t0 [a10 [a11 [a12 [t1 [a20 [a21 [a22 [t2 ->]]]]]]]]]]]]
          [b00 [b01 [b02 [s0 [b10 [b11 [b12 [s1 [b20 [b21 [b22 [s2 ->]]]]]]]]]]]]. fcbv. list_eq; ring.
 Qed.
+Lemma hone_plus2_H2 (c g00 g01 h0 g10 g11 h1 : K) :
+  hone_plus 2 c (H2 g00 g01 h0 g10 g11 h1) = H2 (1 + c * g00) (c * g01) (c * h0) (c * g10) (1 + c * g11) (c * h1).
+Proof. fcbv. list_eq; ring. Qed.
+Lemma hone_plus3_H3 (c g00 g01 g02 h0 g10 g11 g12 h1 g20 g21 g22 h2 : K) :
+  hone_plus 3 c (H3 g00 g01 g02 h0 g10 g11 g12 h1 g20 g21 g22 h2)
+  = H3 (1 + c * g00) (c * g01) (c * g02) (c * h0) (c * g10) (1 + c * g11) (c * g12) (c * h1)
+       (c * g20) (c * g21) (1 + c * g22) (c * h2).
+Proof. fcbv. list_eq; ring. Qed.
 End HapplyComp.
 
 Lemma box1_sq r0 A : is_H1 QcF A -> box1 r0 A -> box1 r0 (hcomp 1 A A).
@@ -328,9 +336,7 @@ Proof.
   intros Hx Hy c r0 r1 Hc Ha Hb Hd0 Hd1 Hr0 Hr1.
   apply expv2_closed_form_Q; [exact Hx|exact Hy|repeat (eapply ex_intro); reflexivity|].
   fold c. clearbody c. unfold hull_invariant2. fold r0 r1.
-  replace (hone_plus (K:=QcF) 2 c (H2 (K:=QcF) g00 g01 h0 g10 g11 h1))
-    with (H2 (K:=QcF) (1 + c * g00)%Qc (c * g01)%Qc (c * h0)%Qc (c * g10)%Qc (1 + c * g11)%Qc (c * h1)%Qc)
-    by (fcbv; list_eq; cbn [fadd fmul f0 f1 QcF T]; ring).
+  rewrite (hone_plus2_H2 QcF QcF_field). cbn [fadd fmul f0 f1 QcF T].
   pose proof (hull_half_nonneg ac nx Hx) as R0. pose proof (hull_half_nonneg ac ny Hy) as R1. fold r0 in R0. fold r1 in R1.
   apply dd2_hull; [exact R0|exact R1|]. split.
   - assert (E : this (1 + c * g00)%Qc - 1 == this c * this g00) by (rewrite this_add, this_mul; cbn; ring).
@@ -355,10 +361,7 @@ Proof.
   intros Hx Hy Hz c r0 r1 r2 Hc Ha Hb Hcc Hd0 Hd1 Hd2 Hr0 Hr1 Hr2 G.
   apply expv3_closed_form_Q; [exact Hx|exact Hy|exact Hz|repeat (eapply ex_intro); reflexivity|].
   fold c. clearbody c. unfold hull_invariant3. fold r0 r1 r2.
-  replace (hone_plus (K:=QcF) 3 c G)
-    with (H3 (K:=QcF) (1 + c * g00)%Qc (c * g01)%Qc (c * g02)%Qc (c * h0)%Qc (c * g10)%Qc (1 + c * g11)%Qc (c * g12)%Qc (c * h1)%Qc
-             (c * g20)%Qc (c * g21)%Qc (1 + c * g22)%Qc (c * h2)%Qc)
-    by (unfold G; fcbv; list_eq; cbn [fadd fmul f0 f1 QcF T]; ring).
+  unfold G. rewrite (hone_plus3_H3 QcF QcF_field). cbn [fadd fmul f0 f1 QcF T].
   pose proof (hull_half_nonneg ac nx Hx) as R0. pose proof (hull_half_nonneg ac ny Hy) as R1.
   pose proof (hull_half_nonneg ac nz Hz) as R2. fold r0 in R0. fold r1 in R1. fold r2 in R2.
   apply dd3_hull; [exact R0|exact R1|exact R2|]. repeat split.
